@@ -67,6 +67,11 @@ package agent
 
 //@ func BuildPayloadMessage(Jobs []Job, AesKey []byte, AesIv []byte) (r []byte)
 //@   requires iv: len(AesIv) == 16 || (len(AesKey) != 16 && len(AesKey) != 24 && len(AesKey) != 32)
+//@   ensures fresh: len(r) == 0 || fresh(arrayof(r))
+//@   loop "for _, job := range Jobs"
+//@     invariant own: (cap(DataPayload) == 0 || fresh(arrayof(DataPayload))) && (cap(PayloadPackage) == 0 || fresh(arrayof(PayloadPackage)))
+//@   loop "for i := range job.Data"
+//@     invariant own: (cap(DataPayload) == 0 || fresh(arrayof(DataPayload))) && (cap(PayloadPackage) == 0 || fresh(arrayof(PayloadPackage)))
 
 //@ func ParseHeader(data []byte) (h Header, err error)
 //@   ensures ok: err == nil ==> h.Data != nil
@@ -169,7 +174,7 @@ package agent
 // and a connect task; the task carries exactly the parsed address type, address
 // and port, and the fresh socket id.
 //@ func (a *Agent) TaskPrepare$1(s *socks.Socks, conn net.Conn, a **Agent)
-//@   requires ctx: s != nil && conn != nil && *a != nil && !held((*a).SocksCliMtx)
+//@   requires ctx: s != nil && conn != nil && *a != nil && !held((*a).SocksCliMtx) && wfSessions()
 //@   requires entries: forall(i, 0, len((*a).SocksCli), (*a).SocksCli[i] != nil)
 //@   modifies *
 //@   guard-call noauth:  "ReadSocksHeader" exists(i, 0, len(NegotiationHeader.Methods), NegotiationHeader.Methods[i] == 0)
@@ -186,6 +191,7 @@ package agent
 // content of this agent's lists.
 //@ func (a *Agent) AddJobToQueue(job Job) (r []Job)
 //@   requires nonnil: a != nil
+//@   requires names: wfSessions()
 //@   modifies a.Tasks, allof(Agent.JobQueue), allelems(Job)
 
 // Frame of the pivot path (C08 gives the functional clause): it appends to this
@@ -199,6 +205,7 @@ package agent
 // holds FileData[k*MAX : min((k+1)*MAX, len)].
 //@ func (a *Agent) UploadMemFileInChunks(FileData []byte) (id uint32)
 //@   requires nonnil: a != nil
+//@   requires names: wfSessions()
 //@   modifies a.Tasks, allof(Agent.JobQueue), allelems(Job)
 //@   ensures id: id == ID
 //@   guard-call shape: "AddJobToQueue" MemFileJob.Command == COMMAND_MEM_FILE && len(MemFileJob.Data) == 3
@@ -206,13 +213,36 @@ package agent
 //@   guard-call total: "AddJobToQueue" typeis(MemFileJob.Data[1], uint64) && unboxed(MemFileJob.Data[1], uint64) == len(FileData)
 //@   guard-call data: "AddJobToQueue" typeis(MemFileJob.Data[2], []byte) && sameslice(unboxed(MemFileJob.Data[2], []byte), FileData[start:min(start+DEMON_MAX_RESPONSE_LENGTH, len(FileData))])
 //@   loop "for start := 0; start <= FileSize; start += chunkSize"
-//@     invariant fixedid: ID == loopentry(ID)
+//@     invariant fixedid: ID == loopentry(ID) && wfSessions()
 //@     invariant step: 0 <= start && start % DEMON_MAX_RESPONSE_LENGTH == 0 && FileSize == len(FileData)
 
 // The relay reader goroutine of the SOCKS handler (free variable: the agent cell).
 // C15: bytes read from the client are queued as one SOCKET_COMMAND_WRITE task
 // carrying the same socket id and exactly the slice that was read.
 //@ func (a *Agent) TaskPrepare$1$1(SocketId int, a **Agent)
-//@   requires ctx: *a != nil && !held((*a).SocksCliMtx)
+//@   requires ctx: *a != nil && !held((*a).SocksCliMtx) && wfSessions()
 //@   modifies *
 //@   guard-call relay: "AddJobToQueue" job.Command == COMMAND_SOCKET && typeis(job.Data[0], int) && ((len(job.Data) == 3 && unboxed(job.Data[0], int) == SOCKET_COMMAND_WRITE && typeis(job.Data[1], int32) && unboxed(job.Data[1], int32) == client.SocketID && typeis(job.Data[2], []byte) && sameslice(unboxed(job.Data[2], []byte), Data)) || (len(job.Data) == 2 && unboxed(job.Data[0], int) == SOCKET_COMMAND_CLOSE && typeis(job.Data[1], int32) && unboxed(job.Data[1], int32) == int32(SocketId)))
+
+// ---------------------------------------------------------------------------
+// C08: a task for a pivot agent is wrapped once per hop. Session names are 8 hex
+// digits of a 32-bit id (ufb_ishex8 / uf_hexval, see specs/deps.hvs); the
+// property demands every id in [1, 2^32-1].
+//  - no hop makes the function give up (err stays nil on every return),
+//  - each layer is built from the job of the layer below, under the key/IV of the
+//    agent that has to decrypt it (first the target itself, then each parent),
+//  - each layer is addressed with that same agent's id.
+// Every session that exists has an 8-hex-digit name of an id in [1, 2^32-1] and a
+// 32-byte key / 16-byte IV (established at registration; assumed at the entry
+// points of the verified call tree).
+//@ spec wfSessions() = forallobj(x, "Havoc/pkg/agent.Agent", ufb_ishex8(x.NameID) && uf_hexval(x.NameID) >= 1 && uf_hexval(x.NameID) < 4294967296 && len(x.Encryption.AESKey) == 32 && len(x.Encryption.AESIv) == 16)
+//@ func (a *Agent) PivotAddJob(job Job)
+//@   requires names: wfSessions()
+//@   ensures total: err == nil
+//@   guard-call target: "BuildPayloadMessage#1" sameslice(arg(1), a.Encryption.AESKey) && sameslice(arg(2), a.Encryption.AESIv)
+//@   guard-call hop: "BuildPayloadMessage#2" sameslice(arg(1), pivots.Parent.Encryption.AESKey) && sameslice(arg(2), pivots.Parent.Encryption.AESIv)
+//@   guard-call targetid: "AddInt32#1" arg(1) == int32(uf_hexval(a.NameID))
+//@   guard-call hopid: "AddInt32#2" arg(1) == int32(uf_hexval(pivots.Parent.NameID))
+//@   guard-call body: "AddBytes" sameslice(arg(1), Payload)
+//@   loop "for"
+//@     invariant chain: pivots != nil && pivots.Parent != nil && err == nil
